@@ -1073,7 +1073,149 @@ def opc5_version_coverage(ctx: Ctx) -> None:
         else:
             ctx.R.ok("OPC-5", key[:110], f"reachable under {cur[key]}")
     if missing:
-        raise AnalysisError(f"OPC-5: {len(missing)} reference opcode test(s) are no longer present with the same text, e.g. `{missing[0][:100]}`: cannot decide version coverage for them")
+        # the comparison was rewritten (== merged into `in`, moved behind a predicate helper, ...): fall back to the opcode
+        # names it mentions -- each must still be tested somewhere in the module under every interpreter it was tested under
+        import re as _re
+        coarse: Dict[str, Dict[str, Set[str]]] = {}
+        for mn in ("_lowlevel", "_lowlevel_cpython_310", "_lowlevel_cpython_311"):
+            m = ctx.P.mod(mn)
+            reach = ctx.reach(m)
+            for n in ast.walk(m.tree):
+                if isinstance(n, (ast.Compare, ast.Call)):
+                    names = {x.value for x in ast.walk(n) if isinstance(x, ast.Constant) and isinstance(x.value, str) and _re.fullmatch(r"[A-Z][A-Z_0-9]+", x.value)}
+                    for a in names:
+                        coarse.setdefault(mn, {}).setdefault(a, set()).update(reach.live.get(id(n), frozenset()))
+        still = []
+        for key in missing:
+            mn = key.split(":")[0]
+            names = _re.findall(r"'([A-Z][A-Z_0-9]+)'", key)
+            want = set(ref[key])
+            if names and all(want <= coarse.get(mn, {}).get(a, set()) for a in names):
+                ctx.R.ok("OPC-5", key[:110], f"rewritten; every opcode it names is still tested under {sorted(want)}")
+            else:
+                still.append(key)
+        if still:
+            raise AnalysisError(f"OPC-5: {len(still)} reference opcode test(s) are no longer present in any recognisable form, e.g. `{still[0][:100]}`: cannot decide version coverage for them")
+
+
+# --------------------------------------------------------------------- OPC-10 handler paths are queued with the block not yet pushed
+def opc10_handler_queue_order(ctx: Ctx) -> None:
+    """OPC-10 in the control-flow walk of currently_exiting_context (CPython < 3.11) the target of a SETUP_* instruction (its
+    handler) is queued with the block stack as it is *before* the new block is pushed (the handler is entered with that
+    block already popped): within one iteration no path leads from the push of the SETUP_* block to the queuing of the
+    relative-jump target"""
+    mod = ctx.P.mod("_lowlevel")
+    fn = mod.fn("currently_exiting_context")
+    loops = [l for l in ast.walk(fn) if isinstance(l, ast.While) and norm(l.test) == "todo"]
+    if len(loops) != 1:
+        ctx.R.undecided("OPC-10", "the `while todo` walk was not found")
+        return
+    loop = loops[0]
+    g = ctx.cfg(fn)
+
+    def guarded_by(st: ast.AST, word: str) -> bool:
+        return any(word in norm(gx) for gx, pol in guards_of(mod, st, fn) if pol)
+
+    pushes = []
+    for st in ast.walk(loop):
+        if not isinstance(st, ast.stmt) or not guarded_by(st, "SETUP_FINALLY"):
+            continue
+        if isinstance(st, ast.Expr) and isinstance(st.value, ast.Call) and norm(st.value.func) == "stack.append":
+            pushes.append(st)
+        elif isinstance(st, ast.AugAssign) and norm(st.target) == "stack":
+            pushes.append(st)
+        elif isinstance(st, ast.Assign) and norm(st.targets[0]) == "stack":
+            pushes.append(st)
+    queues = [st for st in ast.walk(loop) if isinstance(st, ast.Expr) and isinstance(st.value, ast.Call) and norm(st.value.func) == "todo.append" and guarded_by(st, "hasjrel")]
+    if not pushes or not queues:
+        ctx.R.undecided("OPC-10", f"block push ({len(pushes)}) / relative-jump queuing ({len(queues)}) not found in the walk")
+        return
+    header = g.node_of(loop)
+    bad = None
+    for p_ in pushes:
+        reach_ = g.reachable_from(g.node_of(p_), avoid={header.idx})
+        for q_ in queues:
+            if g.node_of(q_).idx in reach_ and g.node_of(q_).idx != g.node_of(p_).idx:
+                bad = (p_, q_)
+    if bad:
+        ctx.R.fail("OPC-10", mod, bad[1], f"the relative-jump target (for a SETUP_* instruction: its handler) is queued at line {bad[1].lineno} after the new block was pushed at line {bad[0].lineno}: the handler "
+                   "path starts with its own block as a stale top entry, so a POP_BLOCK reached through it resolves to the wrong (inner) with-block: wrong start_line / varname / is_async for an exiting context on 3.9 / 3.10",
+                   construct="SETUP_* handler queued with the block already pushed")
+    else:
+        ctx.R.ok("OPC-10", "the SETUP_* handler is queued with the block stack as it was before the push")
+
+
+# --------------------------------------------------------------------- OPC-9 UNPACK_EX oparg decoding
+def opc9_unpack_ex(ctx: Ctx) -> None:
+    """OPC-9 the starred target of `with cm as (a, *b, c)` is rendered at the position the compiler encodes: the count of
+    targets *before* the star is the byte of UNPACK_EX's oparg that the compilers of all supported interpreters put it in
+    (FACTS: unpack_ex, from compiling `a, *b, c, d = x`), the count after it the other byte"""
+    mod = ctx.P.mod("_lowlevel")
+    fn = mod.fn("describe_assignment_target")
+    ctx.R.saw(mod, "describe_assignment_target")
+    enc = {v: ctx.F["interp"][v]["unpack_ex"] for v in ctx.V.all}
+    before_is_low = all(e["before1_after2"] == 1 + (2 << 8) and e["before2_after0"] == 2 and e["before0_after1"] == 256 for e in enc.values())
+    if not before_is_low:
+        raise AnalysisError(f"OPC-9: the compilers do not agree on 'low byte = targets before the star': {enc}")
+    branches = [s for s in ast.walk(fn) if isinstance(s, ast.If) and any(isinstance(c, ast.Constant) and c.value == "UNPACK_EX" for c in ast.walk(s.test))]
+    if not branches:
+        raise AnalysisError("OPC-9: no branch of describe_assignment_target tests for UNPACK_EX")
+    br = branches[0]
+
+    def cls(e: ast.AST, env: Dict[str, str]) -> Optional[str]:
+        if isinstance(e, ast.Name):
+            return env.get(e.id)
+        if isinstance(e, ast.BinOp) and isinstance(e.right, ast.Constant) and "argval" in norm(e.left) or (isinstance(e, ast.BinOp) and isinstance(e.left, ast.Attribute) and e.left.attr in ("argval", "arg") and isinstance(e.right, ast.Constant)):
+            k = e.right.value
+            if isinstance(e.op, ast.BitAnd) and k == 255 or isinstance(e.op, ast.Mod) and k == 256:
+                return "LOW"
+            if isinstance(e.op, ast.RShift) and k == 8 or isinstance(e.op, ast.FloorDiv) and k == 256:
+                return "HIGH"
+        return None
+
+    env: Dict[str, str] = {}
+    for a in ast.walk(br):
+        if isinstance(a, ast.Assign) and len(a.targets) == 1:
+            tg, v = a.targets[0], a.value
+            if isinstance(tg, ast.Name) and cls(v, env):
+                env[tg.id] = cls(v, env)
+            elif isinstance(tg, ast.Tuple) and isinstance(v, ast.Call) and norm(v.func) == "divmod" and len(v.args) == 2 and norm(v.args[1]) == "256" and len(tg.elts) == 2:
+                for t_, c_ in zip(tg.elts, ("HIGH", "LOW")):
+                    if isinstance(t_, ast.Name):
+                        env[t_.id] = c_
+    # events in source order: N(class) for `range(E)`-driven target reads, ONE for a single target read, STAR(index class)
+    events: List[Tuple[int, int, str, Optional[str]]] = []
+    for n in ast.walk(br):
+        if isinstance(n, ast.Call) and norm(n.func) == "range" and len(n.args) == 1:
+            comp = [a for a in mod.ancestors(n) if isinstance(a, (ast.ListComp, ast.GeneratorExp, ast.For))]
+            if comp and any(isinstance(c, ast.Call) and norm(c.func) == "next_target" for c in ast.walk(comp[0])):
+                events.append((n.lineno, n.col_offset, "N", cls(n.args[0], env) or ("SUM" if isinstance(n.args[0], (ast.Name, ast.BinOp)) and cls(n.args[0], env) is None else None)))
+        elif isinstance(n, ast.Call) and norm(n.func) == "next_target" and not any(isinstance(a, (ast.ListComp, ast.GeneratorExp, ast.For)) and a is not br for a in mod.ancestors(n) if any(a is x for x in ast.walk(br))):
+            events.append((n.lineno, n.col_offset, "ONE", None))
+        elif isinstance(n, ast.Assign) and isinstance(n.targets[0], ast.Subscript) and any(isinstance(j, ast.JoinedStr) and norm(j).startswith("f'*") for j in ast.walk(n.value)):
+            events.append((n.lineno, n.col_offset, "STARIDX", cls(n.targets[0].slice, env)))
+    events.sort()
+    kinds = [(k, c) for _, _, k, c in events]
+    if [k for k, _ in kinds] == ["N", "ONE", "N"]:
+        first, last = kinds[0][1], kinds[2][1]
+        if (first, last) == ("LOW", "HIGH"):
+            ctx.R.ok("OPC-9", "UNPACK_EX: (oparg & 0xFF) targets, the starred one, (oparg >> 8) targets", f"compilers: {enc['3.12']}")
+        elif first in ("LOW", "HIGH") and last in ("LOW", "HIGH"):
+            ctx.R.fail("OPC-9", mod, br, f"UNPACK_EX: the number of targets read before the starred one is the {first} byte of the oparg and after it the {last} byte; the compilers put the count before the star "
+                       "in the low byte: `(head, *rest)` is rendered as `(*head, rest)`", construct="UNPACK_EX counts swapped")
+        else:
+            ctx.R.undecided("OPC-9", "UNPACK_EX: cannot classify the two counts")
+    elif any(k == "STARIDX" for k, _ in kinds):
+        c = [c for k, c in kinds if k == "STARIDX"][0]
+        if c == "LOW":
+            ctx.R.ok("OPC-9", "UNPACK_EX: the starred target is the one at index (oparg & 0xFF)")
+        elif c == "HIGH":
+            ctx.R.fail("OPC-9", mod, br, "UNPACK_EX: the index of the starred target is taken from the high byte of the oparg (the count of targets *after* the star); the compilers put the count before the star "
+                       "in the low byte: `(head, *rest)` is rendered as `(*head, rest)`", construct="UNPACK_EX counts swapped")
+        else:
+            ctx.R.undecided("OPC-9", "UNPACK_EX: cannot classify the index of the starred target")
+    else:
+        ctx.R.undecided("OPC-9", f"UNPACK_EX: target reads {kinds} not in a recognised arrangement")
 
 
 # --------------------------------------------------------------------- OPC-6 exit-call template agreement
